@@ -148,7 +148,8 @@ CHECKS = {
             "Single32, NaN/-1 preservation etc. over type mixes x formats x prefixes. Every TLC-emitted catalogue shape x 7 formats x prefix on/off "
             "and seeded catalogues of 1..3000 rows are written with the real save_catalog and read back (load_table + table_to_source_list, "
             "sqlite3); IEEE-754 hex tokens of input and output rows are validated by TLC against Expected(s) (Catalogue_Trace).",
-            "single precision accepts either float32 neighbour; SQLite stores NaN as NULL; values within 1e-30..1e30; uuids contain a letter.",
+            "single precision accepts either float32 neighbour; SQLite stores NaN as NULL; values within 1e-30..1e30; uuids contain a letter; one job in three "
+            "holds its numbers as numpy.float32 attributes (as the finder produces from single-precision maps) and is compared at float32 precision.",
             "TLA+ state machine + TLC invariants; bounded-exhaustive spec->code replay; code->spec batch trace validation",
             "4/C18"),
     "C09": ("exploration",
